@@ -443,6 +443,12 @@ func genC08(p *Plan, r *simrt.Rand, hashes []uint64) {
 	p.Profile = "crash-then-join"
 	n := 1 + r.Intn(4)
 	extra := 2 + r.Intn(4)
+	lastSurvivor := r.Chance(0.35)
+	if lastSurvivor {
+		// a two-node ring loses one node ungracefully; many joiners keep knocking at the survivor
+		// while it detects the failure, drops its only successor and re-forms a one-node ring
+		n, extra = 2, 5+r.Intn(4)
+	}
 	ids := genIDs(r, n+extra, hashes)
 	p.Nodes = p.Nodes[:0]
 	for i := 0; i < n+extra; i++ {
@@ -459,17 +465,34 @@ func genC08(p *Plan, r *simrt.Rand, hashes []uint64) {
 	base := time.Duration(n)*2*p.Stab + 4*p.Stab
 	// crash some members (never slot 0, which later joins are sent through)
 	for i := 1; i < n; i++ {
-		if r.Chance(0.6) {
+		if r.Chance(0.6) || lastSurvivor {
 			p.Nodes[i].Ops = append(p.Nodes[i].Ops, SlotOp{Gap: base + time.Duration(r.Int63n(int64(4*p.Stab))), Kind: "crash"})
 		}
+	}
+	if lastSurvivor {
+		p.Sched.VictimMod, p.Sched.StallBudget, p.Sched.StallMax = 8, 150, time.Second
 	}
 	for i := n; i < n+extra; i++ {
 		// adjacent / equal ids on purpose
 		if r.Chance(0.3) {
 			p.Nodes[i].ID = (ids[r.Intn(n)] + pick(r, uint64(1), ringSize-1, 0)) % ringSize
 		}
-		p.Nodes[i].Ops = []SlotOp{{Gap: base + time.Duration(r.Int63n(int64(30*time.Second))), Kind: "join", Via: 0}}
+		op := SlotOp{Gap: base + time.Duration(r.Int63n(int64(30*time.Second))), Kind: "join", Via: 0}
+		if lastSurvivor {
+			op.Gap = base + 4*p.Stab + time.Duration(i-n)*(p.Stab/3) + time.Duration(r.Int63n(int64(p.Stab)))
+		}
+		if r.Chance(0.4) {
+			// the hand-over of keys to this joiner fails part-way
+			op.Fault = &simnet.Targeted{Method: "Import", Nth: 1, Mode: pick(r, simnet.FaultReset, simnet.FaultReset, simnet.FaultDropReq)}
+		}
+		p.Nodes[i].Ops = []SlotOp{op}
 	}
+	// keys to hand over: loaded through slot 0 before anything else happens
+	cs := ClientSpec{Start: time.Duration(n)*2*p.Stab + p.Stab}
+	for k := range p.Keys {
+		cs.Ops = append(cs.Ops, COp{Gap: 20 * time.Millisecond, Kind: "put", Key: k, Entry: 0, Retry: true})
+	}
+	p.Clients = []ClientSpec{cs}
 	p.MaxQuiet = 30
 }
 
